@@ -584,6 +584,18 @@ Definition same_reading (input : bytes) : bool :=
   | _, _ => false
   end.
 
+(* the model's own observation, in the form the judge reads (H = identity: the hash is carried as its preimage),
+   and the operations paired with their success in the model *)
+Definition model_obs (tx : fixed_tx) : obs :=
+  {| o_body := ft_body tx; o_aux := ft_aux tx; o_wits := encode_wits (ft_wits tx);
+     o_tx := encode_fixed tx; o_hash_pre := Some (ft_hash tx) |}.
+Fixpoint op_flags (sv : bytes -> bytes -> vkw) (sb : bool -> bytes -> bytes -> bw) (ops : list op) (tx : fixed_tx)
+  : list (op * bool) :=
+  match ops with
+  | [] => []
+  | o :: t => (o, is_ok (apply_op (fun b => b) sv sb o tx)) :: op_flags sv sb t (step (fun b => b) sv sb tx o)
+  end.
+
 (* a datum: what PlutusData::from_bytes(input).to_bytes() returned and the bytes whose Blake2b-256 is
    hash_plutus_data: the datum is a non-empty prefix of the input, and the hash is taken over it *)
 Fixpoint is_prefix (a b : bytes) : bool :=
